@@ -520,11 +520,13 @@ class Manager:
             if state.event == event.parent:
                 state.flag = True
                 self.registerTask((state.task_event, state.task, state.parent))
-                if state.timeout >= 0:
+                if state.tick_handler is not None:
                     self.removeHandler(state.tick_handler, 'generate_events')
 
         def _on_tick(self, event):
-            if state.timeout == 0:
+            # (a timeout need not be a whole number: what is left of 2.5 after
+            # three iterations is below zero)
+            if state.timeout <= 0:
                 self.registerTask(
                     (
                         state.task_event,
@@ -540,7 +542,7 @@ class Manager:
                     state.run = True
                 # the task just registered delivers the TimeoutError
                 event.reduce_time_left(0)
-            elif state.timeout > 0:
+            else:
                 state.timeout -= 1
                 # the timeout counts loop iterations: keep the loop iterating
                 event.reduce_time_left(TIMEOUT)
